@@ -342,7 +342,7 @@ def yw_check(key, r, a, sigma, what=""):
     def lag(m):
         return R[m] if m >= 0 else m_T(R[-m])
 
-    scale = max(Fraction(1), max(m_max(x) for x in R)) * sum(max(Fraction(1), m_max(x)) for x in A) * nc
+    scale = max(m_max(x) for x in R) * sum(max(Fraction(1), m_max(x)) for x in A) * nc     # relative to ||R||
     tol = Fraction(TOL) * scale
     for k in range(1, P + 1):
         acc = [[Fraction(0)] * nc for _ in range(nc)]
@@ -381,7 +381,162 @@ def lagged_mean_f(x, nl):
     return np.array([[[float(v) for v in row] for row in m] for m in lagged_mean(x, x, nl)])
 
 
+# ------------------------------------------------------------------ scale handling
+def _exp(v):
+    """e with 2^e * max|v| in [1, 2); 0 for all-zero / empty / non-finite"""
+    a = np.asarray(v, dtype=float)
+    m = np.abs(a).max() if a.size else 0.0
+    if not np.isfinite(m) or m == 0:
+        return 0
+    return -int(np.floor(np.log2(m)))
+
+
+def _sc(h, e):
+    """hex-list scaled by the exact power of two 2^e"""
+    return hexl(np.ldexp(np.asarray(unhex(h), dtype=float), e))
+
+
+def scale_call(d, j):
+    """the same call on data multiplied by 2^j (covariance-valued inputs by 2^(2j))"""
+    d = dict(d)
+    k = d["kind"]
+    if k == "lwr":
+        d["r"] = _sc(d["r"], 2 * j)
+    elif k == "ld":
+        d["r"] = _sc(d["r"], 2 * j)
+    elif k == "cov":
+        d["x"] = _sc(d["x"], j)
+        if "y" in d:
+            d["y"] = _sc(d["y"], j)
+    elif k in ("mar", "ga"):
+        d["x"] = _sc(d["x"], j)
+    elif k == "fit":
+        d["x1"], d["x2"] = _sc(d["x1"], j), _sc(d["x2"], j)
+    elif k == "gen":
+        d["cov"] = _sc(d["cov"], 2 * j)
+    return d
+
+
+def data_exp(d):
+    """data-level exponent of a call (covariance inputs count half)"""
+    k = d["kind"]
+    if k in ("lwr", "ld"):
+        r = arr(d["r"])
+        return -(-_exp(r[0]) // 2)
+    if k in ("cov", "mar", "ga"):
+        return -_exp(arr(d["x"]))
+    if k == "fit":
+        return -_exp([unhex(d["x1"]), unhex(d["x2"])])
+    if k == "gen":
+        return -(-_exp(arr(d["cov"])) // 2)
+    return 0
+
+
+def normalise(d, o, force=False):
+    """bring a call and its observed result to unit scale by exact powers of two, so that every
+       tolerance below is relative to the size of R(0) / of the data"""
+    k = d["kind"]
+    if "err" in o or k in ("crit", "ld"):
+        return d, o
+    d, o = dict(d), dict(o)
+    if k == "lwr":
+        e = _exp(arr(d["r"])[0])
+        if abs(e) > 8 or force:
+            d["r"], o["sigma"] = _sc(d["r"], e), _sc(o["sigma"], e)
+    elif k == "cov":
+        ex = _exp(arr(d["x"]))
+        ey = ex if "y" not in d else _exp(arr(d["y"]))
+        if max(abs(ex), abs(ey)) > 8 or force:
+            d["x"] = _sc(d["x"], ex)
+            if "y" in d:
+                d["y"] = _sc(d["y"], ey)
+            o["rxy"] = _sc(o["rxy"], ex + ey)
+    elif k == "mar":
+        e = _exp(arr(d["x"]))
+        if abs(e) > 8 or force:
+            d["x"], o["ecov"] = _sc(d["x"], e), _sc(o["ecov"], 2 * e)
+    elif k == "fit":
+        e = _exp([unhex(d["x1"]), unhex(d["x2"])])
+        if abs(e) > 8 or force:
+            d["x1"], d["x2"] = _sc(d["x1"], e), _sc(d["x2"], e)
+            o["Rxx"], o["ecov"] = _sc(o["Rxx"], 2 * e), _sc(o["ecov"], 2 * e)
+    elif k == "ga":
+        e = _exp(arr(d["x"]))
+        if abs(e) > 8 or force:
+            d["x"] = _sc(d["x"], e)
+            o["pairs"] = {key: dict(v, Rxx=_sc(v["Rxx"], 2 * e), ecov=_sc(v["ecov"], 2 * e)) for key, v in o["pairs"].items()}
+    elif k == "gen":
+        e = _exp(arr(o["nz"]))
+        if abs(e) > 8 or force:
+            o["nz"], o["mar"] = _sc(o["nz"], e), _sc(o["mar"], e)
+    return d, o
+
+
+def _flat(o):
+    """(structure, numbers) of an observation, for comparing two runs"""
+    if isinstance(o, dict):
+        st, nums = [], []
+        for key in sorted(o):
+            if key in ("crit", "mutated", "msg"):
+                continue
+            s1, n1 = _flat(o[key])
+            st.append((key, s1))
+            nums += n1
+        return st, nums
+    if isinstance(o, list):
+        st, nums = [], []
+        for v in o:
+            s1, n1 = _flat(v)
+            st.append(s1)
+            nums += n1
+        return st, nums
+    if isinstance(o, str):
+        try:
+            return "f", [float.fromhex(o)]
+        except ValueError:
+            return o, []
+    return o, []
+
+
+def rescale_check(d, o):
+    """re-run the call on the input multiplied by an exact power of two far from its own scale:
+       coefficients and orders must not change, covariances must scale by the square
+       (a hidden absolute threshold anywhere in the call chain breaks this on every case)"""
+    k = d["kind"]
+    if k not in ("lwr", "cov", "mar", "fit", "ga") or "err" in o:
+        return None
+    cur = data_exp(d)
+    j = (-36 if cur > -5 else 26) - cur
+    d2 = scale_call(d, j)
+    o2 = run_case(d2)
+    key = "C11/" + {"lwr": "lwr_recursion", "cov": "crosscov_vector", "mar": "MAR_est_LWR", "fit": "fit_model",
+                    "ga": "GrangerAnalyzer"}[k] + "/scale-equivariance"
+    what = "the same call on the input multiplied by 2^%d (data scale 2^%d -> 2^%d) " % (j, cur, cur + j)
+    if ("err" in o2) != ("err" in o):
+        return Fail(key, what + "raised %s" % o2.get("err"), o2.get("err"), "the rescaled result", {"rescale_by": j})
+    n1, n2 = normalise(d, o, force=True)[1], normalise(d2, o2, force=True)[1]
+    s1, v1 = _flat(n1)
+    s2, v2 = _flat(n2)
+    if s1 != s2:
+        return Fail(key, what + "gives a result of different order / shape", None, None, {"rescale_by": j})
+    v1, v2 = np.array(v1), np.array(v2)
+    if v1.size and not np.all(np.abs(v1 - v2) <= 1e-9 * (1 + np.abs(v1).max())):
+        w = int(np.argmax(np.abs(v1 - v2)))
+        return Fail(key, what + "does not give the same coefficients and the covariances scaled by 2^%d "
+                    "(largest normalised deviation %.3e)" % (2 * j, float(np.abs(v1 - v2).max())),
+                    float(v2[w]), float(v1[w]), {"rescale_by": j})
+    return None
+
+
 def oracle(d, o):
+    f = rescale_check(d, o)
+    if f is not None:
+        return f
+    d, o = normalise(d, o)
+    return oracle_raw(d, o)
+
+
+def oracle_raw(d, o):
     k = d["kind"]
     key = "C11/" + {"lwr": "lwr_recursion", "ld": "AR_est_LD", "cov": "crosscov_vector", "mar": "MAR_est_LWR",
                     "fit": "fit_model", "gen": "generate_mar", "crit": "information_criterion",
@@ -926,6 +1081,8 @@ def gen_crit(ctx, rs):
 
 def klass(d):
     c = klass0(d)
+    if d.get("scaled"):
+        c += "/scale-2^%s" % ("<-20" if d["scaled"] < -20 else ("<0" if d["scaled"] < 0 else (">15" if d["scaled"] > 15 else ">=0")))
     if d.get("long"):
         N = len((d.get("x") or [d.get("x1")])[0]) if d["kind"] != "gen" else d["N"]
         c += "/long-N%s%s" % (">2048" if N > 2048 else (">1024" if N > 1024 else "<=1024"), "" if not d.get("nok") else "/oracle-only")
@@ -984,6 +1141,11 @@ def run(ctx):
     calls = corpus_calls()
     for g, n in plan:
         calls += [g(ctx, rs) for _ in range(n)]
+    # magnitude classes: data amplitudes 2^-40 .. 2^30 (volts, tesla, raw ADC counts ...); exact powers of two
+    for n, d in enumerate(calls):
+        if d["kind"] != "crit" and rs.rand() < 0.6:
+            j = int(rs.randint(-40, 31)) if rs.rand() < 0.7 else int(rs.choice([-40, -30, -27, -14, 20, 30]))
+            calls[n] = dict(scale_call(d, j), scaled=j)
     calls += long_calls(ctx, rs)
     cases = [make_case(d) for d in calls]
     kcases = [c for c in cases if c.in_k]
@@ -1001,7 +1163,7 @@ def run(ctx):
     for c in cases:
         f = oracle(c.replay["call"], c.replay["observed"])
         if f is not None:
-            f.replay = {"entry_point": f.key.split("/")[1], "model_disagrees": id(c) in bad}
+            f.replay = dict(f.replay or {}, entry_point=f.key.split("/")[1], model_disagrees=id(c) in bad)
             ctx.report_fail(f, c)
     ctx.extra["model_impl_disagreements"] = len(bad)
     ctx.extra["not_in_K"] = sum(1 for c in cases if not c.in_k)
@@ -1015,7 +1177,10 @@ def run(ctx):
                          "also in K); GrangerAnalyzer order/autocov/model_coef/error_cov for ij lists with both orientations, "
                          "repeated pairs, shuffled orders and attribute read orders; public keywords at their defaults (nlags "
                          "omitted/None = all N lags, also fed to lwr_recursion; max_order omitted; corrected omitted; "
-                         "MAR_est_LWR rxx=; crosscov_vector(x, x) aliasing; C/Fortran/transposed-view r). "
+                         "MAR_est_LWR rxx=; crosscov_vector(x, x) aliasing; C/Fortran/transposed-view r); 60% of the calls on data "
+                         "scaled by exact powers of two 2^-40..2^30, every tolerance relative to ||R(0)|| / the data, and every "
+                         "lwr/cov/mar/fit/GrangerAnalyzer call re-run on its input rescaled by 2^j far from its own scale "
+                         "(same coefficients/orders, covariances x 2^2j). "
                          "non-trivial = the call returned a value")
     return ctx.finish(
         trusted=["numpy/scipy kernels used by the anchored code (dot, linalg.inv, linalg.det, log, mean, "
